@@ -300,6 +300,12 @@ func runInput(in *Input, class string) *Result {
 			i++
 			continue
 		}
+		if l.P == 2 && l.K == "FB" && i+1 < len(in.Labels) && in.Labels[i+1].K == "M" {
+			oa, ob := e.StepFetchDuringRelease(l, in.Labels[i+1].T)
+			obs = append(obs, oa, ob)
+			i++
+			continue
+		}
 		obs = append(obs, e.Step(l))
 	}
 	labels := in.Labels[:len(obs)]
